@@ -40,10 +40,12 @@ def sort_features(t, acc):
 
 
 def has_symbol(b, memo):
-    """Contains a symbol (free or bound) or a function name."""
+    """Contains a *free* symbol or a function application.  (A closed term
+    - e.g. an ITE on a closed quantified condition - denotes a constant:
+    multiplying by it is linear, which is also pySMT's documented rule.)"""
     if id(b) in memo:
         return memo[id(b)]
-    r = b[0] in ('sym', 'app') or any(has_symbol(c, memo) for c in b[2])
+    r = bool(B.free_syms(b)) or B.has_op(b, ('app',))
     memo[id(b)] = r
     return r
 
